@@ -191,6 +191,9 @@ class CMesh(mesh):
         return SymReal(zmax(ts))
 
 
+EVAL_LOG = {'on': None, 'calls': []}
+
+
 class PDProb(Problem):
     dtype_u = CMesh
     dtype_f = CMesh
@@ -200,6 +203,12 @@ class PDProb(Problem):
         self.lam = lam
 
     def eval_f(self, u, t):
+        if EVAL_LOG['on'] is not None:  # (which node value is evaluated at which time: the right-hand side of this problem does not depend on the time,
+            for l, S in enumerate(EVAL_LOG['on']):  # the evaluation TIMES the iteration uses are judged separately)
+                Lv = S.levels[0]
+                for m, x in enumerate(Lv.u):
+                    if x is u:
+                        EVAL_LOG['calls'].append((l, m, float(t), float(Lv.time + (Lv.dt * Lv.sweep.coll.nodes[m - 1] if m else 0.0))))
         f = self.dtype_f(self.init)
         f[:] = u * self.lam
         return f
@@ -257,7 +266,11 @@ def one_iteration(ctl, u0, U):
         Lv.status.unlocked = True
         S.status.iter = 1
         S.status.stage = 'IT_PARADIAG'
-    ctl.it_ParaDiag(ctl.MS)
+    EVAL_LOG['on'], EVAL_LOG['calls'] = list(ctl.MS), []
+    try:
+        ctl.it_ParaDiag(ctl.MS)
+    finally:
+        EVAL_LOG['on'] = None
     return [[ctl.MS[l].levels[0].u[m][0] for m in range(1, M + 1)] for l in range(L)]
 
 
@@ -388,9 +401,13 @@ def iteration_case(rep, M, L, alpha, first=None):
                 reconfigure(ctl, alpha)
         out = one_iteration(ctl, SymReal(u0v), [[SymReal(v) for v in row] for row in Uv])
         Q = np.array(ctl.MS[0].levels[0].sweep.coll.Qmat)
+        calls = list(EVAL_LOG['calls'])
     finally:
         Ctx.cur = None
     rep.paths += 1
+    # every right-hand side evaluation of the iteration takes the time of the node whose value it evaluates (matters for non-autonomous problems)
+    wrong = [c_ for c_ in calls if abs(c_[2] - c_[3]) > 1e-12]
+    rep.side(f'{name}:right-hand-side-evaluated-at-the-time-of-its-node', bool(calls) and not wrong, {'evaluations': len(calls), 'wrong (step, node, time used, node time)': wrong[:4]})
     z = rv(frac(lam) * frac(dt))
     # residual of the all-at-once system and the alpha-circulant preconditioned increment, defined by equations
     r = [[(u0v if l == 0 else Uv[l - 1][M - 1]) + z * sum(rv(Q[m + 1, j + 1]) * Uv[l][j] for j in range(M)) - Uv[l][m] for m in range(M)] for l in range(L)]
